@@ -75,12 +75,65 @@ def setup_process():
     np.seterr(all="ignore")
     import warnings
     warnings.simplefilter("ignore")
+    snapshot_process_state()
     _ENV_READY = True
+
+
+_BASELINE_STATE = None
+
+
+def _mutable_state():
+    """(owner, name) -> value for every module-level and class-level dict/list/set of amr_kitchen."""
+    import copy
+    out = {}
+    for mname, mod in list(sys.modules.items()):
+        if not (mname == "amr_kitchen" or mname.startswith("amr_kitchen.")) or mod is None:
+            continue
+        owners = [mod] + [v for v in vars(mod).values() if isinstance(v, type) and getattr(v, "__module__", "") == mname]
+        for ow in owners:
+            for k, v in list(vars(ow).items()):
+                if k.startswith("__"):
+                    continue
+                if isinstance(v, (dict, list, set)):
+                    out[(ow, k)] = v
+    return out
+
+
+def snapshot_process_state():
+    global _BASELINE_STATE
+    import copy
+    _BASELINE_STATE = {}
+    for key, v in _mutable_state().items():
+        try:
+            _BASELINE_STATE[key] = copy.deepcopy(v)
+        except Exception:
+            pass
+
+
+def restore_process_state():
+    """Class-level and module-level containers of amr_kitchen are restored to what they were when the
+    worker started, so state leaked by one case (e.g. a class attribute rewritten by a tool) cannot
+    decide the outcome of a later case: history dependence has to show inside ONE case."""
+    import copy
+    if _BASELINE_STATE is None:
+        return 0
+    n = 0
+    for (ow, k), base in _BASELINE_STATE.items():
+        cur = vars(ow).get(k)
+        try:
+            same = cur == base
+        except Exception:
+            same = False
+        if not same:
+            setattr(ow, k, copy.deepcopy(base))
+            n += 1
+    return n
 
 
 def reset_process_state():
     """Undo process-global mutations the tools make, so a case's outcome does not depend
     on which cases ran before it in this worker."""
+    restore_process_state()
     import amr_kitchen.chef.chef as chef_mod
     chef_mod.SARRAYS = None
     chef_mod.PRESSURES = None
